@@ -39,7 +39,7 @@ func TestVerif_C05_h3emit(t *testing.T) {
 		"requests over {no order, header order, pseudo-header order, both} x {plain, cookies, 20..64 headers, trailers announced, body, no body, HEAD, CONNECT, Extended CONNECT (:protocol)}; method/URL/Host override/header map in all spellings/order lists (subset, superset, other case, duplicated)/body kind/gzip from the C01/C16 generator; 1..6 consecutive requests share one requestWriter (QPACK encoder, header buffer); the writer is entered through encodeHeaders (trailers argument) and through writeHeaders (HEADERS frame envelope read with quic-go's quicvarint); header dumper on/off; oracle: section rule written from RFC 9114 4.2/4.3.1 + the C01 multiset/ordering oracle where it applies; non-trivial = the writer produced a block")
 	r := s.Rand()
 	hs := newC05hist(s)
-	n := verifh.N(2600, 60000)
+	n := verifh.N(2600, 40000)
 	var w *requestWriter
 	left := 0
 	for c := 0; c < n; c++ {
